@@ -132,6 +132,12 @@ func ruleG9(c *Ctx, rule string) {
 	for _, w := range writes {
 		key := fmt.Sprintf("%s.%s/%s", w.typ, w.field, strings.TrimPrefix(funcKey(w.fn), "yqlib."))
 		if why, ok := g9Accepted[w.typ+"."+w.field]; ok {
+			// a field that is handed over anew for every result (leading content, writer) is only
+			// reset if the method that takes it stores it on every path, not under a condition
+			if g9HandedOver[w.typ+"."+w.field] && w.fn.Name() != "Encode" && storeAvoidable(w.fn, w.field) {
+				r.Finding(rule, key, c.P.pos(w.pos), fmt.Sprintf("%s.%s is stored only on some paths of %s: when the store is skipped the encoder keeps what an earlier result left there, and prints it for this one", w.typ, w.field, w.fn.Name()))
+				continue
+			}
 			r.Discharge(rule, key, c.P.pos(w.pos), "accepted: "+why)
 		} else {
 			r.Finding(rule, key, c.P.pos(w.pos), fmt.Sprintf("%s stores into its field %s while printing: the one encoder instance prints every result (with -s / -0 into a new destination each time), so what this result leaves there is seen by the next", w.typ, w.field))
@@ -140,4 +146,31 @@ func ruleG9(c *Ctx, rule string) {
 	if len(writes) == 0 {
 		r.Discharge(rule, "module/stateless-encoders", "-", "no encoder method stores into a field of its receiver")
 	}
+}
+
+// g9HandedOver: accepted fields whose acceptance rests on "the method that receives the value stores it every time".
+var g9HandedOver = map[string]bool{
+	"xmlEncoder.leadingContent": true,
+}
+
+// storeAvoidable: some non-error return of fn is reachable from the entry without a store to the receiver's field.
+func storeAvoidable(fn *ssa.Function, field string) bool {
+	isStore := func(ins ssa.Instruction) bool {
+		st, ok := ins.(*ssa.Store)
+		if !ok {
+			return false
+		}
+		fa, ok := st.Addr.(*ssa.FieldAddr)
+		return ok && fa.X == ssa.Value(fn.Params[0]) && fieldName(fa) == field
+	}
+	for _, b := range fn.Blocks {
+		ret, ok := b.Instrs[len(b.Instrs)-1].(*ssa.Return)
+		if !ok || isErrorExit(ret) {
+			continue
+		}
+		if pathAvoiding(fn, fn.Blocks[0], 0, b, len(b.Instrs)-1, isStore) {
+			return true
+		}
+	}
+	return false
 }
